@@ -55,14 +55,14 @@ package core
 //@   props C07 C04 C05
 //@   requires extensions != nil && chains != nil && issuer != nil
 //@   requires certs_nonnil: chainsOK(chains)
-//@   assigns E.uint8, X.stream, fresh:E.*core.CertificateChainEntry
+//@   assigns E.uint8, X.stream, X.spos, fresh:E.*core.CertificateChainEntry
 //@   ensures err == nil ==> forall k int :: 0 <= k && k < len(ret) ==> ret[k] != nil && ret[k].Certificate != nil && ret[k].RawCertificate != nil
 //@   ensures err != nil ==> len(ret) == 0
 
 //@ func findCertificateCandidatesFromKeyIdentifier
 //@   props C07 C04
 //@   requires verifiedChains != nil && authorityKeyIdentifier != nil && chainsOK(verifiedChains)
-//@   assigns E.uint8, X.stream, fresh:E.*core.CertificateChainEntry
+//@   assigns E.uint8, X.stream, X.spos, fresh:E.*core.CertificateChainEntry
 //@   ensures err == nil ==> forall k int :: 0 <= k && k < len(ret) ==> ret[k] != nil && ret[k].Certificate != nil && ret[k].RawCertificate != nil
 //@   ensures err != nil ==> len(ret) == 0
 //@   loop 1 invariant fresh(certificateCandidates) || cap(certificateCandidates) == 0
@@ -73,7 +73,7 @@ package core
 //@ func findCertificateBySerialAndIssuer
 //@   props C07 C04
 //@   requires verifiedChains != nil && identifier != nil && identifier.AuthorityCertSerialNumber != nil && chainsOK(verifiedChains)
-//@   assigns E.uint8, X.stream, fresh:E.*core.CertificateChainEntry
+//@   assigns E.uint8, X.stream, X.spos, fresh:E.*core.CertificateChainEntry
 //@   ensures err == nil ==> forall k int :: 0 <= k && k < len(ret) ==> ret[k] != nil && ret[k].Certificate != nil && ret[k].RawCertificate != nil
 //@   ensures err != nil ==> len(ret) == 0
 //@   loop 1 invariant fresh(certificateCandidates) || cap(certificateCandidates) == 0
@@ -84,7 +84,7 @@ package core
 //@ func findCertificateCandidatesByIssuerAndAlgorithm
 //@   props C07 C04
 //@   requires verifiedChains != nil && issuer != nil && chainsOK(verifiedChains)
-//@   assigns E.uint8, X.stream, fresh:E.*core.CertificateChainEntry
+//@   assigns E.uint8, X.stream, X.spos, fresh:E.*core.CertificateChainEntry
 //@   ensures err == nil ==> forall k int :: 0 <= k && k < len(ret) ==> ret[k] != nil && ret[k].Certificate != nil && ret[k].RawCertificate != nil
 //@   ensures err != nil ==> len(ret) == 0
 //@   loop 1 invariant fresh(certificateCandidates) || cap(certificateCandidates) == 0
